@@ -20,13 +20,13 @@ open OFCore.HeapSys OFCore.Param
 /-! ## A concrete history used by the non-vacuity examples -/
 
 namespace C14ex
-def cA : ClassDef := ⟨"a", some "float", none, some "person", some "month", none, none, [(1, 1)]⟩
+def cA : ClassDef := ⟨"a", some "float", none, some "person", some "month", none, none, [(1, 1)], [], false⟩
 def cB : ClassDef :=
-  ⟨"b", some "float", some "5", some "person", some "month", some 736694, none, [(1, 2), (735964, 3)]⟩
+  ⟨"b", some "float", some "5", some "person", some "month", some 736694, none, [(1, 2), (735964, 3)], [], false⟩
 def params : ParamTree := [("rate", [⟨735599, some "3"⟩, ⟨733773, some "2"⟩])]
 def base : State := (baseSystem ["person", "household"] params [cA, cB]).getD { heap := ⟨[]⟩, systems := [] }
 /-- a partial class for `update_variable`: one new dated formula, nothing else -/
-def updB : ClassDef := ⟨"b", none, none, none, none, none, none, [(736330, 4)]⟩
+def updB : ClassDef := ⟨"b", none, none, none, none, none, none, [(736330, 4)], [], false⟩
 def ops : List Op :=
   [.clone 0, .modify 1 (.neutralize "a"),
    .reform 0 [.update updB, .params [⟨"rate", 736330, none, some "9"⟩]],
@@ -85,7 +85,7 @@ theorem C14_base_calculations_unchanged (st : State) (ops : List Op)
 
 namespace C14ex
 /-- an extension with a variable and a parameter of its own -/
-def ext1 : Ext := ⟨"x1", [⟨"town_allowance", some "float", none, some "household", some "month", none, none, [(1, 7)]⟩],
+def ext1 : Ext := ⟨"x1", [⟨"town_allowance", some "float", none, some "household", some "month", none, none, [(1, 7)], [], false⟩],
   [("town", [⟨733773, some "100"⟩])]⟩
 /-- a reform that touches no parameter (it would share its baseline's tree) with an extension that
     brings parameters; then the same extension alone, twice (the second time is a cache hit); then
@@ -313,7 +313,16 @@ theorem C14_update_inherits (h : Heap) (X : Oid) (cls : ClassDef) (h' : Heap) (b
       (∀ d, (∃ p ∈ cls.formulas, p.1 ≤ d) →
           ∃ n s, lastLE v.formulas d = some (.base n) ∧ (s, n) ∈ cls.formulas ∧ s ≤ d) ∧
       (cls.endDate = none → ∀ d, (∀ p ∈ cls.formulas, d < p.1) → getFormula v.view d = getFormula b.view d) ∧
-      (cls.endDate = some 0 → v.endDate = none) := by
+      (cls.endDate = some 0 → v.endDate = none) ∧
+      -- the descriptive attributes: `label` …
+      (dictGet "label" cls.attrs = none → v.label = b.label) ∧
+      (∀ x, dictGet "label" cls.attrs = some x → v.label = x) ∧
+      -- … and `reference`, `documentation`, `unit`, `cerfa_field`, `calculate_output`,
+      -- `is_period_size_independent` (`max_length`: of string variables)
+      (∀ k ∈ metaKeys, (k = "max_length" → v.valueType = "str") →
+        (dictGet k cls.attrs = none → v.attr k = b.attr k) ∧
+        (∀ x, dictGet k cls.attrs = some (some x) → v.attr k = some x) ∧
+        (dictGet k cls.attrs = some none → v.attr k = if k = "calculate_output" then b.attr k else none)) := by
   rcases loadVariable_inv h X cls true with ⟨e, he⟩ | ⟨s, m, v, hs, hm, _, hcons, he⟩
   · rw [he] at hu; cases hu
   · rw [he] at hu
@@ -324,6 +333,7 @@ theorem C14_update_inherits (h : Heap) (X : Oid) (cls : ClassDef) (h' : Heap) (b
     have hcw : constructWith cls (some bid) (some b) = .ok v := by
       unfold construct at hcons; dsimp only at hcons; rw [hb] at hcons; exact hcons
     obtain ⟨_, hbase, hvt, hdf, hent, hdp, hend, hsi, _, decl, hdecl, hfs⟩ := constructWith_some hcw
+    obtain ⟨_, hlab, _⟩ := constructWith_some_attrs hcw
     obtain ⟨d1, d2, _, _⟩ := declaredFormulas_spec _ _ _ _ hdecl
     have hblt := lt_next_of_look h (look_of_getVar hb)
     obtain ⟨hres, hv', hkeep⟩ := bindVar_reads hs hm cls.name v
@@ -337,7 +347,7 @@ theorem C14_update_inherits (h : Heap) (X : Oid) (cls : ClassDef) (h' : Heap) (b
       · exact hall _ hn
       · cases hnil
     refine ⟨h.next, v, hres, hv', hbase, hbk,
-      Nat.ne_of_gt hblt, hvt, hdf, hent, hdp, hend, hsi, ?_, hbefore, ?_, ?_, ?_⟩
+      Nat.ne_of_gt hblt, hvt, hdf, hent, hdp, hend, hsi, ?_, hbefore, ?_, ?_, ?_, ?_, ?_, ?_⟩
     · intro hnil
       rw [hnil] at hdecl
       simp only [declaredFormulas, Except.ok.injEq] at hdecl
@@ -354,10 +364,42 @@ theorem C14_update_inherits (h : Heap) (X : Oid) (cls : ClassDef) (h' : Heap) (b
       · cases hnil
     · intro hnone d hall
       have hend' : v.endDate = b.endDate := by rw [hend, hnone]; rfl
-      show getFormula ⟨_, _, _, _, _, v.endDate, _, v.formulas, _⟩ d
-        = getFormula ⟨_, _, _, _, _, b.endDate, _, b.formulas, _⟩ d
+      show getFormula ⟨_, _, _, _, _, v.endDate, _, v.formulas, _, _, _⟩ d
+        = getFormula ⟨_, _, _, _, _, b.endDate, _, b.formulas, _, _, _⟩ d
       simp only [getFormula, hend', hbefore d hall]
     · intro h0; rw [hend, h0]; rfl
+    · intro hn; rw [hlab, hn]; rfl
+    · intro x hx
+      rw [hlab, hx]
+      cases x <;> simp [attrOf]
+    · intro k hk hml
+      have ha := constructWith_some_attr hcw k hk
+      have hm : metaAttr k v.valueType (dictGet k cls.attrs) (some (b.attr k))
+          = attrOf k v.valueType (dictGet k cls.attrs) (some (b.attr k)) := by
+        unfold metaAttr
+        by_cases hkm : k = "max_length"
+        · rw [if_pos hkm, if_pos (hml hkm)]
+        · rw [if_neg hkm]
+      rw [hm] at ha
+      refine ⟨fun hn => ?_, fun x hx => ?_, fun hx => ?_⟩
+      · rw [ha, hn]; rfl
+      · rw [ha, hx]; rfl
+      · rw [ha, hx]; rfl
+
+/-- a class that redefines the label, clears the documentation and says nothing of the unit -/
+example :
+    let b0 : ClassDef := { C14ex.cB with attrs := [("label", some "L1"), ("documentation", some "D1"), ("unit", some "U1")] }
+    let st := (baseSystem ["person"] [] [b0]).getD { heap := ⟨[]⟩, systems := [] }
+    let u : ClassDef := { C14ex.updB with attrs := [("label", some "L2"), ("documentation", none)] }
+    let r := loadVariable st.heap 1 u true
+    C14ex.okB r.2 = true ∧
+    (varObs r.1 1 "b").map (fun v => (v.label, dictGet "documentation" v.attrs, dictGet "unit" v.attrs,
+        dictGet "is_period_size_independent" v.attrs))
+      = some (some "L2", some none, some (some "U1"), some (some "j66616c7365")) ∧
+    -- a declared value of the wrong type is refused and nothing is bound
+    C14ex.okB (loadVariable st.heap 1 { u with invalid := true } true).2 = false ∧
+    (varObs (loadVariable st.heap 1 { u with invalid := true } true).1 1 "b").map (·.label) = some (some "L1") := by
+  decide +kernel
 
 example :
     let r := loadVariable C14ex.base.heap 2 C14ex.updB true
@@ -365,6 +407,41 @@ example :
     (varObs r.1 2 "b").map (·.formulas) = some [(1, .base 2), (735964, .base 3), (736330, .base 4)] ∧
     (varObs r.1 2 "b").map (·.default) = some "5" ∧
     (varObs r.1 2 "b").map (·.endDate) = some (some 736694) := by decide +kernel
+
+/-- **A class `Variable.__init__` refuses changes nothing.** A class declaring a value of the wrong type
+    (`allowed_type`), outside the allowed values, or refused by a setter cannot be instantiated: `add_variable`
+    and `update_variable` raise and leave the heap — the target system and every other one — exactly as it was.
+    (`replace_variable` has deleted the entry of that name before it instantiates the class: what is left is
+    the target without the variable, see `replaceVariable`; nothing else is touched.) -/
+theorem C14_invalid_class_refused (h : Heap) (X : Oid) (cls : ClassDef) (update : Bool)
+    (hi : cls.invalid = true) :
+    (loadVariable h X cls update).1 = h ∧ ∃ e, (loadVariable h X cls update).2 = .error e := by
+  have hcons : ∀ bid, ∃ e, construct h cls bid = .error e := by
+    intro bid
+    unfold construct
+    cases bid with
+    | none => exact ⟨_, by unfold constructWith; rw [hi]; rfl⟩
+    | some i =>
+      dsimp only
+      cases h.getVar i with
+      | none => exact ⟨_, rfl⟩
+      | some b => exact ⟨_, by unfold constructWith; rw [hi]; rfl⟩
+  unfold loadVariable
+  cases h.getSys X with
+  | none => exact ⟨rfl, _, rfl⟩
+  | some s =>
+    dsimp only
+    cases h.getMap s.vars with
+    | none => exact ⟨rfl, _, rfl⟩
+    | some m =>
+      dsimp only
+      split
+      · exact ⟨rfl, _, rfl⟩
+      · obtain ⟨e, he⟩ := hcons (dictGet cls.name m)
+        rw [he]
+        exact ⟨rfl, _, rfl⟩
+
+example : ({ C14ex.updB with invalid := true } : ClassDef).invalid = true := rfl
 
 /-! ## Neutralised variables -/
 
@@ -397,7 +474,8 @@ theorem C14_neutralized_default (h : Heap) (X : Oid) (name : String) (h' : Heap)
   · rw [he] at hn
     simp only [Prod.mk.injEq, and_true] at hn
     subst hn
-    obtain ⟨hres, hv', _⟩ := bindVar_reads hs hm name { c with isNeutralized := true }
+    obtain ⟨hres, hv', _⟩ := bindVar_reads hs hm name
+      { c with isNeutralized := true, label := some (neutralizedLabel v.label) }
     refine ⟨h.next, _, hres, hv', Nat.le_refl _, rfl, ?_⟩
     intro P _ store inputs start runF p
     exact (C14_neutralized_ignores_inputs _ rfl store inputs start runF p).2
@@ -421,27 +499,31 @@ theorem C14_neutralize_annualize_succeed (st : State) (ops : List Op) (hc : Cons
     (annualizeVar (run st ops).heap X name).2 = .ok () ∧
     (∃ w, varObs (neutralizeVar (run st ops).heap X name).1 X name = some w ∧
         w.isNeutralized = true ∧ w.default = v.default ∧ w.valueType = v.valueType ∧
-        w.entity = v.entity ∧ w.defPeriod = v.defPeriod ∧ w.endDate = v.endDate ∧ w.setInput = v.setInput) ∧
+        w.entity = v.entity ∧ w.defPeriod = v.defPeriod ∧ w.endDate = v.endDate ∧ w.setInput = v.setInput ∧
+        w.attrs = v.attrs ∧ w.label = some (neutralizedLabel v.label)) ∧
     (∃ w, varObs (annualizeVar (run st ops).heap X name).1 X name = some w ∧
         w.isNeutralized = v.isNeutralized ∧ w.default = v.default ∧ w.valueType = v.valueType ∧
         w.entity = v.entity ∧ w.defPeriod = v.defPeriod ∧ w.endDate = v.endDate ∧ w.setInput = v.setInput ∧
-        w.formulas = v.formulas.map (fun p => (p.1, Fml.annual p.2))) := by
+        w.formulas = v.formulas.map (fun p => (p.1, Fml.annual p.2)) ∧
+        w.attrs = v.attrs ∧ (v.isNeutralized = false → w.label = v.label)) := by
   have hcons := consistent_run hc ops
   generalize (run st ops).heap = h at *
-  obtain ⟨c, hcl, _, a2, a3, a4, a5, a6, a7⟩ := hcons vid v hv
+  obtain ⟨c, hcl, _, a2, a3, a4, a5, a6, a7, a8, a9⟩ := hcons vid v hv
   obtain ⟨s, m, hs, hm, hd⟩ := resolve_some_inv hr
   have en := neutralizeVar_eq hs hm hd hv hcl
   have ea := annualizeVar_eq hs hm hd hv hcl
   refine ⟨hcons, by rw [en], by rw [ea], ?_, ?_⟩
-  · obtain ⟨r1, r2, _⟩ := bindVar_reads hs hm name { c with isNeutralized := true }
-    refine ⟨VarObj.view { c with isNeutralized := true }, ?_, rfl, a3, a2, a4, a5, a6, a7⟩
+  · obtain ⟨r1, r2, _⟩ := bindVar_reads hs hm name
+      { c with isNeutralized := true, label := some (neutralizedLabel v.label) }
+    refine ⟨VarObj.view { c with isNeutralized := true, label := some (neutralizedLabel v.label) },
+      ?_, rfl, a3, a2, a4, a5, a6, a7, a8, rfl⟩
     rw [en]
     unfold varObs
     rw [r1]; dsimp only; rw [r2]; rfl
   · obtain ⟨r1, r2, _⟩ := bindVar_reads hs hm name
       { c with formulas := v.formulas.map (fun p => (p.1, Fml.annual p.2)), isNeutralized := v.isNeutralized }
     refine ⟨VarObj.view { c with formulas := v.formulas.map (fun p => (p.1, Fml.annual p.2)), isNeutralized := v.isNeutralized },
-      ?_, rfl, a3, a2, a4, a5, a6, a7, rfl⟩
+      ?_, rfl, a3, a2, a4, a5, a6, a7, rfl, a8, a9⟩
     rw [ea]
     unfold varObs
     rw [r1]; dsimp only; rw [r2]; rfl
@@ -620,6 +702,7 @@ end OFCore
 #print axioms OFCore.C14_modification_local
 #print axioms OFCore.C14_derived_is_base_plus_changes
 #print axioms OFCore.C14_update_inherits
+#print axioms OFCore.C14_invalid_class_refused
 #print axioms OFCore.C14_neutralized_ignores_inputs
 #print axioms OFCore.C14_neutralized_default
 #print axioms OFCore.C14_neutralize_annualize_succeed
